@@ -108,6 +108,21 @@ fn check_texts(name: &str, a: &(String, String), b: &(String, String), sa: &BTre
     Ok(())
 }
 
+/// the plain texts and, when the run has an ambient context (`Spec.ctx`), the texts produced in it,
+/// appended to the second member so that every comparison covers them
+fn texts_in_ctx(g: &dyn DynGen, ctx: u8, st: &mut Stats) -> Result<(String, String), E> {
+    let mut t = sut(guard(|| g.debug()), "debug")?;
+    if ctx != 0 {
+        let x = sut(guard(|| crate::gens::debug_in_ctx(g, ctx)), "debug_in_ctx")?;
+        t.1.push('\u{2}');
+        t.1.push_str(&x.0);
+        t.1.push('\u{2}');
+        t.1.push_str(&x.1);
+        st.count(if ctx == 1 { "probe:texts_while_unwinding" } else { "probe:texts_on_other_thread" });
+    }
+    Ok(t)
+}
+
 fn rng_rate(rng: &mut Prng) -> u32 {
     *rng.pick(&[150u32, 400, 800])
 }
@@ -247,8 +262,8 @@ impl C17 {
         let mut consumed = 0u64;
         for i in 0..=calls.len() {
             // compare texts at this point (after construction, then after every call)
-            let da = sut(guard(|| a.debug()), "debug")?;
-            let db = sut(guard(|| b.debug()), "debug")?;
+            let da = texts_in_ctx(a.as_ref(), spec.ctx, st)?;
+            let db = texts_in_ctx(b.as_ref(), spec.ctx, st)?;
             st.log.str(&da.0);
             // the (expensive) secret sets are only needed when a text contains a large number at all
             let big = |t: &(String, String)| numeric_tokens(&t.0).iter().chain(numeric_tokens(&t.1).iter()).any(|x| *x >= THRESHOLD);
@@ -346,7 +361,7 @@ impl C17 {
             check_texts(ck.name(), &da, &db, &sa, &sb, &format!("after {} generate() calls", i))?;
             // also through the harness-built BlockRng wrapper (BlockRng's Debug prints the core)
             let (wa, wb) = (a.wrap(), b.wrap());
-            let (ta, tb) = (sut(guard(|| wa.debug()), "debug")?, sut(guard(|| wb.debug()), "debug")?);
+            let (ta, tb) = (texts_in_ctx(wa.as_ref(), spec.ctx, st)?, texts_in_ctx(wb.as_ref(), spec.ctx, st)?);
             check_texts(ck.name(), &ta, &tb, &sa, &sb, &format!("wrapped in BlockRng after {} generate() calls", i))?;
             sut(guard(|| a.generate()), "generate")?;
             sut(guard(|| b.generate()), "generate")?;
